@@ -184,11 +184,21 @@ func (p *Proxy) forwardRpc(source string, rpc *goatorepo.Rpc) {
 	}
 }
 
+// report hands an error to serveClients unless the context is done: once
+// serveClients has returned nobody receives from the channel any more and a
+// bare send would leave this goroutine behind for ever.
+func (c *proxyClient) report(ctx context.Context, err error) {
+	select {
+	case c.toServer <- command{id: c.id, err: err}:
+	case <-ctx.Done():
+	}
+}
+
 func (c *proxyClient) readLoop(ctx context.Context) error {
 	for {
 		rpc, err := c.conn.Read(ctx)
 		if err != nil {
-			c.toServer <- command{id: c.id, err: err}
+			c.report(ctx, err)
 			return errors.Wrap(err, "failed to read from connection")
 		}
 
@@ -207,7 +217,7 @@ func (c *proxyClient) writeLoop(ctx context.Context) error {
 
 			err := c.conn.Write(ctx, rpc)
 			if err != nil {
-				c.toServer <- command{id: c.id, err: err}
+				c.report(ctx, err)
 				return errors.Wrap(err, "failed to write to connection")
 			}
 		case <-ctx.Done():
@@ -228,7 +238,7 @@ func (c *proxyClient) connect(ctx context.Context, newConnection NewConnection) 
 
 	c.conn, err = newConnection(c.id)
 	if err != nil {
-		c.toServer <- command{id: c.id, err: err}
+		c.report(ctx, err)
 		return
 	}
 
